@@ -330,6 +330,11 @@ func (e *Engine) runOracle(prop, oracle string, hints map[string]interface{}, re
 	cmd.Run()
 	text := out.String()
 	rep["oracle_output"] = trunc2(text, 4000)
+	if strings.Contains(text, "[build failed]") || strings.Contains(text, "[setup failed]") {
+		rep["replay"] = "the oracle harness does not build against this tree (it names identifiers the tree no longer has)"
+		rep["oracle_unbuildable"] = true
+		return false
+	}
 	for _, l := range strings.Split(text, "\n") {
 		if i := strings.Index(l, "ORACLE-VIOLATION:"); i >= 0 {
 			rep["failing_input"] = strings.TrimSpace(l[i+len("ORACLE-VIOLATION:"):])
